@@ -128,6 +128,16 @@ CLAIMED = {
         note="That the recursive bubble sort normal-orders every polynomial correctly (associativity, CAR, agreement with Jordan-Wigner matrices) needs an inductive proof and is NOT decided. Two genuine defects found by R5/R6 were repaired (D13, D14).",
         technique="pairing/ordering rules over clang AST+CFG with branch facts, sibling-structure comparison, typed lint for prefix equality",
         ref="DESIGN.md §3 C05"),
+    "C04": dict(
+        text="Static analysis of the lattice layer. (R1) each of the 11 Lattice::Term::Presets factories is summarised from its extracted skeleton and equals the monomial written in LatticePresets.h as an operator, for every equality pattern of its arguments "
+             "(incl. the documented degenerate/invalid cases); (R2) each of the 11 LatticePresets::add* functions: the emission structure (loops, guards, factory, argument tuple, coefficient) equals the reviewed reference records, and the "
+             "extracted summary expanded on bounded layouts (<= 3 orbitals x <= 3 spins, same-site and two-site, amplitudes symbolic or zero) equals the documented operator; (R3) addHopping emits Hopping(1,2,t) and Hopping(2,1,conj t) "
+             "(t in the real configuration), all layouts; (R4) TermStorage keeps a full copy under the term's order and IndexHamiltonian::prepare turns every stored term of every order into Value * product of its factors in order, checked on "
+             "480+ user terms of 2, 4 and 6 operators incl. coinciding indices; (R5) on the expanded summaries H = H^+, [H_Kanamori(U'=U-2J), S+-] = 0, [H_SS, S+-] = 0.",
+        note="R2/R4/R5 interpret the *extracted summaries* of small loop nests with an independent fermion algebra; pomerol itself is never compiled or run. The for-all-layouts claim of R2 rests on structural identity with the reviewed records; "
+             "where a preset is restructured the verdict is bounded to the expanded layouts. The Fock-space matrix of the polynomial is C05/C03. Two genuine defects repaired (D12 documentation, D15).",
+        technique="summary extraction over clang AST (custom libTooling extractor) + abstract interpretation of the summaries over a small value domain (symbolic amplitudes) + exact polynomial comparison (sympy) against the documented operators",
+        ref="DESIGN.md §3 C04"),
 }
 
 NOT_YET = {}
